@@ -87,6 +87,8 @@ def main():
                 rec['tests_pass'] = (rc == 0)
                 rec['tests_tail'] = out.strip().splitlines()[-1] if out.strip() else ''
             props = m['props']
+            if props == ['ALL']:
+                props = ['C%02d' % i for i in range(1, 20)]
             if args.props:
                 props = args.props.split(',')
             for pid in props:
